@@ -64,6 +64,12 @@ REQUIRED_COUNTERS = [
     'scal:ivc', 'scal:implicit', 'scal:explicit', 'scal:array', 'scal:negative-ref', 'scal:ref<ref0',
     'scal:res_ref', 'scal:ref0', 'scal:units-on-scaled-src', 'scal:src_indices-on-scaled-src',
     'scal:array-ref+src_indices',
+    'guess:level=group', 'guess:level=root', 'guess:level=nested', 'guess:level=comp', 'guess:level=group+comp',
+    'guess:solver=newton', 'guess:solver=newton-subsolve', 'guess:solver=broyden',
+    'obs:guess:scaling-active', 'obs:guess:group-level-call', 'obs:guess:comp-level-call',
+    'obs:guess:root-compared', 'obs:guess:comp-residuals-compared', 'obs:guess:group-residuals-twin-compared',
+    'guess:scal:x:ref0', 'guess:scal:x:ref<ref0', 'guess:scal:x:negative-ref', 'guess:scal:x:array',
+    'guess:scal:x:res_ref', 'guess:scal:a:ref0', 'guess:scal:units',
 ]
 ASSUMPTIONS = [
     'R (omv/ref/flatmodel.py) is exact and scaling-agnostic; its Jacobian is re-validated by complex step per case',
@@ -89,6 +95,7 @@ EPS = 2.220446049250313e-16
 BASE_DIRECT = 1e-8    # DESIGN 3.2 shared rule
 BASE_ITER = 1e-6
 LOOSE = 1e-6          # a derived bound above this (relative) makes the case unjudgeable
+N_GUESS = {'quick': 15, 'thorough': 90}     # 'guess' cases per shard (omv/gen/c08_guess.py)
 P_KNOWN = 0.25        # share of models that keep a scaling assignment hitting a recorded defect (see avoid_known)
 
 NLV = {
@@ -126,6 +133,9 @@ def shards(tier, seed):
 def run_shard(shard, acc):
     for k in range(shard['n']):
         run_case({'seed': shard['seed'] + k, 'tier': shard.get('tier', 'quick')}, acc)
+    ng = N_GUESS[shard.get('tier', 'quick')]
+    for k in range(ng):
+        run_case({'seed': shard['seed'] + k, 'tier': shard.get('tier', 'quick'), 'kind': 'guess'}, acc)
 
 
 # ----------------------------------------------------------------------------------------------------------
@@ -831,6 +841,8 @@ def _ref_totals(fm, of, wrt, u, p):
 
 # ----------------------------------------------------------------------------------------------------------
 def run_case(case, acc):
+    if case.get('kind') == 'guess':
+        return run_guess_case(case, acc)
     from omv.gen import models as G
     from omv.ref.flatmodel import FlatModel
     seed = case['seed']
@@ -1067,3 +1079,169 @@ def _run_cell(G, fm, spec, sspec, feats, scal, unscal, ustar, p, Ju, Jp, cell, c
                    'scaled_outputs': {o['name']: {k: o[k] for k in ('ref', 'ref0', 'res_ref') if k in o}
                                       for c in sp_s['comps'] for o in c['outputs']
                                       if any(k in o for k in ('ref', 'ref0', 'res_ref'))}})
+
+
+# ----------------------------------------------------------------------------------------------------------
+# 'guess' stratum: what a user guess_nonlinear sees / writes is physical, and the root it selects is the
+# same with and without scaling (omv/gen/c08_guess.py)
+# ----------------------------------------------------------------------------------------------------------
+def _guess_feats(case):
+    f = set()
+    for st in case['states']:
+        f.update('x:' + x for x in st['x_feats'])
+        f.update('a:' + x for x in st['a_feats'])
+        if st['fac'] != 1.0 or st['off'] != 0.0:
+            f.add('units')
+    return sorted(f)
+
+
+def _run_guess_twin(K, case, scaled):
+    """-> dict(status, seen=[per run], x=[per run {state: value}], flags)"""
+    res = {'status': 'ok', 'runs': []}
+    prob = None
+    try:
+        prob, seen, paths = K.build(case, scaled)
+        prob.setup()
+        for run in range(1 + case['reruns']):
+            del seen[:]
+            for st in case['states']:
+                x0 = K.initial_x(st)
+                prob.set_val(paths[st['name']] + '.x', x0.reshape(tuple(st['shape'])) if st['shape'] else float(x0[0]))
+            try:
+                prob.run_model()
+            except Exception as e:
+                if type(e).__name__ == 'AnalysisError':
+                    res['status'] = 'nonconverged'
+                    return res
+                raise
+            xs = {st['name']: np.asarray(prob.get_val(paths[st['name']] + '.x'), dtype=float).ravel().copy()
+                  for st in case['states']}
+            res['runs'].append({'seen': list(seen), 'x': xs})
+        m = prob.model
+        res['flags'] = (bool(m._has_output_scaling), bool(m._has_resid_scaling), bool(m._has_input_scaling))
+        return res
+    except Exception as e:
+        if os.environ.get('OMV_DEBUG'):
+            import traceback
+            traceback.print_exc()
+        res.update(status='raises', exc=e)
+        return res
+    finally:
+        if prob is not None:
+            try:
+                prob.cleanup()
+            except Exception:
+                pass
+
+
+def run_guess_case(case, acc):
+    from omv.gen import c08_guess as K
+    full = K.gen_case(case['seed'])
+    level, solver = full['level'], full['solver']
+    feats = _guess_feats(full)
+    ccase = {'seed': case['seed'], 'kind': 'guess', 'tier': case.get('tier', 'quick')}
+    fp = fingerprint(('guess', level, solver, tuple(feats), tuple(tuple(st['shape']) for st in full['states'])))
+    with poison():
+        plain = _run_guess_twin(K, full, False)
+        scal = _run_guess_twin(K, full, True)
+    acc.count('guess:level=' + level)
+    acc.count('guess:solver=' + solver)
+    for f in feats:
+        acc.count('guess:scal:' + f)
+    for name, tw in (('plain', plain), ('scaled', scal)):
+        if tw['status'] == 'raises':
+            acc.viol('%s:level=%s' % (exc_key('guess:%s-twin' % name, tw['exc']), level),
+                     '%s twin of a model with a user guess_nonlinear raises %r' % (name, tw['exc']), ccase, fp=fp)
+            return
+    if plain['status'] != 'ok' or scal['status'] != 'ok':
+        acc.skip('guess:solver-not-converged')
+        return
+    if not (scal['flags'][0] or scal['flags'][1]):
+        acc.skip('guess:scaling-not-active')
+        return
+    if plain['flags'][0] or plain['flags'][1]:
+        acc.viol('guess:plain-twin-has-scaling', 'plain twin reports active scaling', ccase, fp=fp)
+        return
+    acc.count('obs:guess:scaling-active')
+    bad = []
+    stmap = {st['name']: st for st in full['states']}
+
+    def scale_of(st):
+        # magnitude against which round-off of the scale/unscale round trip is measured
+        kw = st['x_scal']
+        mags = [1.0] + [abs(v) for k in ('ref', 'ref0') for v in np.atleast_1d(kw.get(k, 0.0))]
+        return max(mags)
+
+    for name, tw in (('plain', plain), ('scaled', scal)):
+        for ri, run in enumerate(tw['runs']):
+            tag = ('' if ri == 0 else ':rerun')
+            # ---- what the guesses saw -------------------------------------------------------------------------
+            current = {st['name']: K.initial_x(st) for st in full['states']}
+            for (w, sname, sv) in run['seen']:
+                st = stmap[sname]
+                lv = 'comp' if w == 'comp' else 'group'
+                acc.count('obs:guess:%s-level-call' % lv)
+                tol = 1e-10 * (scale_of(st) + np.max(np.abs(current[sname])))
+                if not np.allclose(sv['outputs'], current[sname], rtol=0, atol=tol):
+                    bad.append(('%s-guess-sees-nonphysical-outputs%s' % (lv, tag), name,
+                                '%s twin: %s-level guess_nonlinear (%s) saw outputs[%s.x]=%s, physical value is %s'
+                                % (name, lv, w, sname, sv['outputs'], current[sname])))
+                a_t = K.a_target(st)
+                if not np.allclose(sv['inputs'], a_t, rtol=1e-10, atol=0):
+                    bad.append(('%s-guess-sees-nonphysical-inputs%s' % (lv, tag), name,
+                                '%s twin: %s-level guess_nonlinear (%s) saw inputs[%s.a]=%s, physical value is %s'
+                                % (name, lv, w, sname, sv['inputs'], a_t)))
+                if w == 'comp':
+                    # the component-level guess is documented to get current residuals
+                    r_e = K.resid_at(st, current[sname])
+                    rtol_r = 1e-9 * (np.max(np.abs(r_e)) + np.max(np.abs(st['s'] * a_t)) + 1.0)
+                    if not np.allclose(sv['residuals'], r_e, rtol=0, atol=rtol_r):
+                        bad.append(('comp-guess-sees-nonphysical-residuals%s' % tag, name,
+                                    '%s twin: component guess_nonlinear saw residuals[%s.x]=%s, physical value is %s'
+                                    % (name, sname, sv['residuals'], r_e)))
+                    acc.count('obs:guess:comp-residuals-compared')
+                if w in st['writers']:
+                    current[sname] = K.guess_x(st, w)
+            # every writer must have been called
+            called = set((w, s) for (w, s, _) in run['seen'])
+            for st in full['states']:
+                for w in st['writers']:
+                    if (w, st['name']) not in called:
+                        bad.append(('guess-not-called%s' % tag, name, '%s twin: %s guess for %s was never called'
+                                    % (name, w, st['name'])))
+            # ---- the root the model converged to ------------------------------------------------------------------
+            if solver != 'broyden':
+                for st in full['states']:
+                    xr, xo = K.root_x(st), K.other_root_x(st)
+                    x = run['x'][st['name']]
+                    tol = 1e-6 * (1.0 + np.abs(xr))
+                    if not np.all(np.abs(x - xr) <= tol):
+                        on_other = bool(np.any(np.abs(x - xo) <= tol))
+                        bad.append(('%s%s' % ('converged-to-the-other-root' if on_other else 'converged-value-wrong', tag),
+                                    name, '%s twin: %s.x converged to %s; the guess selects the root %s (other root %s)'
+                                    % (name, st['name'], x, xr, xo)))
+                acc.count('obs:guess:root-compared')
+    # ---- group-level residuals: twin against twin (their content at guess time is not specified, their scaling is)
+    for ri, (rp, rs_) in enumerate(zip(plain['runs'], scal['runs'])):
+        if len(rp['seen']) == len(rs_['seen']):
+            for (w, sname, a), (w2, sname2, b) in zip(rp['seen'], rs_['seen']):
+                if w != 'comp' and (w, sname) == (w2, sname2):
+                    st = stmap[sname]
+                    mag = np.max(np.abs(a['residuals'])) + np.max(np.abs(st['s'] * K.a_target(st))) + 1.0
+                    acc.count('obs:guess:group-residuals-twin-compared')
+                    if not np.allclose(a['residuals'], b['residuals'], rtol=0, atol=1e-8 * mag):
+                        bad.append(('group-guess-sees-scaled-residuals' + ('' if ri == 0 else ':rerun'), 'scaled',
+                                    'group-level guess_nonlinear saw residuals[%s.x]=%s in the scaled twin, %s in the '
+                                    'plain twin' % (sname, b['residuals'], a['residuals'])))
+    if not bad:
+        acc.ok(fp=fp, nontrivial=True)
+        return
+    done = set()
+    first = True
+    for key, twin, what in bad:
+        k = 'guess:%s:%s-twin:level=%s' % (key, twin, level)
+        if k in done:
+            continue
+        done.add(k)
+        acc.viol(k, what, ccase, fp=fp, new_case=first)
+        first = False
